@@ -51,6 +51,8 @@ Definition SITE_BAR_LAST : N := 222.       (* progress_chars[progress_chars.len(
 Definition SITE_BAR_IDX0 : N := 704.       (* self.chars[0] *)
 Definition SITE_BAR_CUR : N := 707.        (* self.chars[cur] *)
 Definition SITE_PRECISION : N := 320.      (* "{:.1$}": a precision argument above u16::MAX panics in core::fmt *)
+Definition SITE_TAB_REPEAT : N := 433.     (* " ".repeat(tab_width): capacity overflow above isize::MAX - TabRewriter::write_str
+                                              (style.rs:433) and TabExpandedString::expanded (state.rs:393) *)
 Definition SITE_PAD_LEFT : N := 742.       (* self.str.len() - excess *)
 Definition SITE_PAD_CENTER : N := 746.     (* self.str.len() - excess.saturating_sub(excess / 2) *)
 Definition SITE_REAL_ADD : N := 10590.     (* draw_target.rs:590 real_height += line_height *)
@@ -192,7 +194,9 @@ Record snapshot := mksnap {
   sn_tick : N;                (* state.tick *)
   sn_finished : bool;         (* state.is_finished() *)
   sn_msg : mtext;             (* state.message.expanded() *)
-  sn_prefix : mtext }.        (* state.prefix.expanded() *)
+  sn_prefix : mtext;          (* state.prefix.expanded() *)
+  sn_msg_tab : bool;          (* the message contains a tab (TabExpandedString::WithTabs) *)
+  sn_prefix_tab : bool }.
 
 (* the integers format_bar derives through f32 arithmetic and saturating `as usize` casts
    (style.rs:195-212): any usize / bool *)
@@ -203,6 +207,7 @@ Record fbar := mkfbar {
 
 Record oracles := mkor {
   o_meas : nat -> mtext;      (* `buf` after the key of template part #i has been written (:256-363) *)
+  o_writes : nat -> bool;     (* the with_key tracker of part #i calls write_str at least once *)
   o_bar : N -> fbar;          (* per bar width in clusters *)
   o_cur_cols : nat -> N;      (* :452 measure_text_width(cur without NUL) when push_line runs at part #i *)
   o_cur_nonempty : bool;      (* :393 !cur.is_empty() after the last part *)
@@ -271,6 +276,13 @@ Definition padded_sites (t : mtext) (width : N) (a : align) (trunc : bool) : out
     end
   else Ok tt.
 
+(** `" ".repeat(tab_width)`: evaluated by TabRewriter::write_str on EVERY call (style.rs:431-434,
+    whether or not the text has a tab) and by TabExpandedString::expanded for a text that has
+    one (state.rs:383-395).  Vec capacity is limited to isize::MAX bytes. *)
+Definition tab_site (st : style) (needed : bool) : outcome unit :=
+  if needed && (ISIZE_MAX <? st_tab st) then Panic SITE_TAB_REPEAT else Ok tt.
+Definition has_tab (s : list N) : bool := existsb (N.eqb 9) s.
+
 Inductive wide := WBar | WMsg (a : align).
 
 Module KeyNames.
@@ -292,7 +304,8 @@ Definition placeholder_sites (st : style) (sn : snapshot) (O : oracles) (i : nat
   : outcome (option wide) :=
   let key := ph_key p in
   let arm : outcome (option wide * mtext) :=
-    if existsb (list_eqb N.eqb key) (st_keys st) then Ok (None, o_meas O i)   (* :257-258 tracker.write *)
+    if existsb (list_eqb N.eqb key) (st_keys st) then                         (* :257-258 tracker.write *)
+      oseq (tab_site st (o_writes O i)) (Ok (None, o_meas O i))
     else if key_is key KeyNames.wide_bar then Ok (Some WBar, o_meas O i)             (* :261-264 *)
     else if key_is key KeyNames.bar then                                              (* :265-274 *)
       oseq (format_bar st O (match ph_width p with Some w => w | None => DEFAULT_BAR_WIDTH end))
@@ -303,8 +316,10 @@ Definition placeholder_sites (st : style) (sn : snapshot) (O : oracles) (i : nat
       | Panic s => Panic s
       end
     else if key_is key KeyNames.wide_msg then Ok (Some (WMsg (ph_align p)), o_meas O i)   (* :276-279 *)
-    else if key_is key KeyNames.msg then Ok (None, sn_msg sn)                         (* :280 *)
-    else if key_is key KeyNames.prefix then Ok (None, sn_prefix sn)                   (* :281 *)
+    else if key_is key KeyNames.msg then                                       (* :280 *)
+      oseq (tab_site st (sn_msg_tab sn)) (Ok (None, sn_msg sn))
+    else if key_is key KeyNames.prefix then                                    (* :281 *)
+      oseq (tab_site st (sn_prefix_tab sn)) (Ok (None, sn_prefix sn))
     else if key_is key KeyNames.per_sec then                                          (* :318-333 *)
       match ph_width p with
       | Some w => if U16 <=? w then Panic SITE_PRECISION else Ok (None, o_meas O i)
@@ -330,7 +345,8 @@ Definition push_line_sites (st : style) (sn : snapshot) (O : oracles) (i : nat)
       let left := tw - o_cur_cols O i in                 (* :452 saturating_sub *)
       match w with
       | WBar => format_bar st O left                     (* :454-460 (the format! runs even without a NUL) *)
-      | WMsg a => padded_sites (sn_msg sn) left a true   (* :461-472 *)
+      | WMsg a => oseq (tab_site st (sn_msg_tab sn))      (* :466 state.message.expanded() *)
+                       (padded_sites (sn_msg sn) left a true)   (* :461-472 *)
       end
   end.
 
@@ -339,7 +355,7 @@ Fixpoint walk (st : style) (sn : snapshot) (O : oracles) (tw : N) (i : nat) (ps 
          (wd : option wide) : outcome (option wide) :=
   match ps with
   | [] => Ok wd
-  | PLit _ :: r => walk st sn O tw (S i) r wd                                   (* :386 *)
+  | PLit s :: r => oseq (tab_site st (has_tab s)) (walk st sn O tw (S i) r wd)   (* :386 s.expanded() *)
   | PPh p :: r =>
       match placeholder_sites st sn O i p with
       | Panic s => Panic s
@@ -431,6 +447,11 @@ Definition accepts (o : bop) : Prop :=
   | OWithKey _ | OSetTab _ => True
   end.
 
+(** tab widths for which `" ".repeat(tab_width)` does not exceed the capacity of a Vec *)
+Definition tab_sane (st : style) : Prop := st_tab st <= ISIZE_MAX.
+(** the calls that are methods of ProgressStyle (OSetTab is made by the ProgressBar) *)
+Definition builder_op (o : bop) : Prop := match o with OSetTab _ => False | _ => True end.
+
 (** the universal fact about console::measure_text_width this development assumes of every
     measured string: it never reports more columns than the string has bytes *)
 Definition mt_ok (t : mtext) : Prop := mt_cols t <= mt_len t.
@@ -445,8 +466,9 @@ Inductive bobs :=
 | ObsPanic (i : N) (site : N).
 
 (* one draw of a bar carrying the built style:
-   (pos, len, tick, finished, (msg len, cols), (prefix len, cols), terminal width, height, returned normally) *)
-Definition probe := (N * option N * N * bool * (N * N) * (N * N) * N * N * bool)%type.
+   (pos, len, tick, finished, (msg len, cols, has a tab), (prefix len, cols, has a tab),
+    tab width of the bar, terminal width, height, returned normally) *)
+Definition probe := (N * option N * N * bool * (N * N * bool) * (N * N * bool) * N * N * N * bool)%type.
 (* ProgressStyle::get_tick_str(idx) (Some idx) or get_final_tick_str() (None): the string
    returned, None if the call panicked *)
 Definition tprobe := (option N * option (list N))%type.
@@ -454,15 +476,18 @@ Definition tprobe := (option N * option (list N))%type.
 Definition bcase := (ctor * list bop * bobs * list probe * list tprobe)%type.
 
 Definition probe_oracles (lines : list N) : oracles :=
-  mkor (fun _ => mkmt 0 0) (fun c => mkfbar (c / 2) true 1) (fun _ => 0) true lines.
+  mkor (fun _ => mkmt 0 0) (fun _ => true) (fun c => mkfbar (c / 2) true 1) (fun _ => 0) true lines.
 
 Definition is_ok {A} (o : outcome A) : bool := match o with Ok _ => true | Panic _ => false end.
 
 Definition probe_ok (st : style) (p : probe) : bool :=
-  let '(pos, len, tick, fin, (ml, mc), (pl, pc), tw, th, ok) := p in
-  let sn := mksnap pos len tick fin (mkmt ml mc) (mkmt pl pc) in
+  let '(pos, len, tick, fin, (ml, mc, mt), (pl, pc, pt), tab, tw, th, ok) := p in
+  let sn := mksnap pos len tick fin (mkmt ml mc) (mkmt pl pc) mt pt in
   (mc <=? ml) && (pc <=? pl) &&
-  Bool.eqb (is_ok (draw_outcome st sn tw th 0 false (probe_oracles [0]))) ok.
+  match bstep st (OSetTab tab) with               (* ProgressBar::with_tab_width + set_style *)
+  | BOk st' => Bool.eqb (is_ok (draw_outcome st' sn tw th 0 false (probe_oracles [0]))) ok
+  | _ => false
+  end.
 
 Definition tprobe_ok (st : style) (t : tprobe) : bool :=
   let '(idx, obs) := t in
